@@ -59,11 +59,53 @@ package httpserver
 //     refused by a filter of a path that is not its route).
 //   - cache keys are collision free by construction of the alphabet (C12).
 //
+// Hot reloads (mux.reload with a changed spec). About a third of the scenarios
+// own 1-3 further GENERATIONS of the spec: rules, paths and cacheSize stay,
+// ipFilter blocks are edited at the server level only (the routing rules are
+// then identical across the reload), at the rule level only, at the path level
+// only, at several levels, not at all, or the denial of one client is moved
+// between levels (hoisted from rule/path filters to the server filter or
+// pushed down) so that it is denied before and after, only by other lists.
+// Every generation is its own supervisor.NewSpec object, as a configuration
+// update delivers one. Reloads are issued by an admin task beside the clients
+// (under traffic: requests parked at gates inside the filters or inside the
+// handler) and by the clients themselves (a single client => quiescent: no
+// request in flight), walk forward through the generations and sometimes back
+// to an earlier one, with and without route cache. Reloads are serialised by
+// the harness (one object is never reloaded by two callers at once).
+//   - a request snapshots the number of reloads that have RETURNED immediately
+//     before it is handed to ServeHTTP and the number of reloads STARTED
+//     immediately after ServeHTTP returned (no gate in between). It may be
+//     judged by any generation installed by a reload in that window: exactly
+//     the newest one when no reload overlaps it ("requests started after the
+//     reload returned must be judged by the new lists"), either generation
+//     when it overlaps one. The whole oracle above is applied per generation
+//     (cache-less twin of THAT generation); the answer must be accepted by at
+//     least one. Mixing levels of two generations is therefore a violation
+//     only when the result fits neither.
+//   - an answer accepted by no admissible generation but by one a returned
+//     reload had already replaced is reported as C05.reload.* (old lists
+//     still applied); otherwise under the ordinary class, judged by the
+//     newest admissible generation.
+//   - not generated: reloads that change rules/paths/hosts/cacheSize (the
+//     filter-less routing twin is shared by all generations), concurrent
+//     reloads of one server.
+//
+// Further widening: CIDR prefix lengths are drawn from the whole range (not
+// only the boundary grid) in a quarter of the entries; clients one bit off
+// the edge of a list entry (last prefix bit / first host bit / last bit
+// flipped) join the population and, unless plainly public unicast, are only
+// presented through RemoteAddr or a lone X-Real-IP; IPv6 clients are sometimes
+// spelled fully expanded in upper case in the headers (same address); a list
+// now and then has 4-12 entries.
+//
 // Violation classes: C05.{server,rule,path}-filter-bypassed (denied client
 // reached the backend of its own route), C05.denied-status-not-4xx / -not-403,
-// C05.allowed-refused, C05.allowed-misrouted, C05.other, and three classes
-// that fire on the unchanged tree (genuine defects of the cached branch of
-// muxInstance.search): C05.earlier-rule-filter-skipped-on-cache-hit,
+// C05.allowed-refused, C05.allowed-misrouted, C05.other,
+// C05.reload.denied-served-by-old-lists, C05.reload.allowed-refused-by-old-lists,
+// C05.reload.old-lists-still-applied, and three classes for the cached branch
+// of muxInstance.search (genuine defects when the harness was written, repaired
+// in /repo by fd4d021): C05.earlier-rule-filter-skipped-on-cache-hit,
 // C05.denied-reaches-sibling-path, C05.allowed-refused-by-sibling-path-filter.
 // For mutation experiments only, VERIF_C05_MASK=<class,class,...> turns the
 // listed classes into probes (c05.masked.<class>) so that they do not end the
@@ -107,12 +149,16 @@ type c05Path struct {
 	Tag     string     `json:"tag"`     // non-empty: path is conditioned on header X-Tag == Tag
 	Rewrite string     `json:"rewrite"` // rewriteTarget
 	Filter  *c05Filter `json:"filter"`
+	// Alts[g-1] = this path's filter in spec generation g (null = no filter);
+	// generations beyond len(Alts) keep Filter.
+	Alts []*c05Filter `json:"alts,omitempty"`
 }
 
 type c05Rule struct {
-	Host   string     `json:"host"`
-	Filter *c05Filter `json:"filter"`
-	Paths  []c05Path  `json:"paths"`
+	Host   string       `json:"host"`
+	Filter *c05Filter   `json:"filter"`
+	Alts   []*c05Filter `json:"alts,omitempty"` // as c05Path.Alts
+	Paths  []c05Path    `json:"paths"`
 }
 
 type c05Op struct {
@@ -129,6 +175,12 @@ type c05Op struct {
 	// must NOT pick (privpub, xffdecoy; may be empty).
 	Chain string `json:"chain,omitempty"`
 	Decoy string `json:"decoy,omitempty"`
+	// Gen (kind reload): the spec generation the HTTPServer is reloaded with;
+	// 0 = the filters in the Filter fields, g = the Alts[g-1] ones.
+	Gen int `json:"gen,omitempty"`
+	// Form "exp": an IPv6 client address is written in the headers in its
+	// fully expanded upper-case form (same address, other spelling).
+	Form string `json:"form,omitempty"`
 }
 
 type c05Client struct {
@@ -141,6 +193,50 @@ type c05Scenario struct {
 	Rules        []c05Rule   `json:"rules"`
 	Clients      []c05Client `json:"clients"`
 	HandlerYield bool        `json:"handler_yield"`
+	// hot reloads: ServerAlts as c05Path.Alts; Reloader = ops (kind reload) of
+	// a dedicated admin task that runs beside the clients.
+	ServerAlts []*c05Filter `json:"server_alts,omitempty"`
+	Reloader   []c05Op      `json:"reloader,omitempty"`
+}
+
+const c05MaxGen = 6
+
+// c05At: the filter a slot holds in generation g.
+func c05At(base *c05Filter, alts []*c05Filter, g int) *c05Filter {
+	if g >= 1 && g-1 < len(alts) {
+		return alts[g-1]
+	}
+	return base
+}
+
+// c05View is the scenario as generation g configures it (filters of that
+// generation in the Filter fields, no Alts).
+func c05View(sc *c05Scenario, g int) *c05Scenario {
+	v := &c05Scenario{CacheSize: sc.CacheSize, Server: c05At(sc.Server, sc.ServerAlts, g)}
+	for _, ru := range sc.Rules {
+		r2 := c05Rule{Host: ru.Host, Filter: c05At(ru.Filter, ru.Alts, g), Paths: []c05Path{}}
+		for _, p := range ru.Paths {
+			p2 := p
+			p2.Filter, p2.Alts = c05At(p.Filter, p.Alts, g), nil
+			r2.Paths = append(r2.Paths, p2)
+		}
+		v.Rules = append(v.Rules, r2)
+	}
+	return v
+}
+
+func c05Clone(f *c05Filter) *c05Filter {
+	if f == nil {
+		return nil
+	}
+	return &c05Filter{BlockByDefault: f.BlockByDefault, Allow: append([]string{}, f.Allow...), Block: append([]string{}, f.Block...)}
+}
+
+func c05SameFilter(a, b *c05Filter) bool {
+	if a == nil || b == nil {
+		return a == nil && b == nil
+	}
+	return a.BlockByDefault == b.BlockByDefault && strings.Join(a.Allow, ",") == strings.Join(b.Allow, ",") && strings.Join(a.Block, ",") == strings.Join(b.Block, ",")
 }
 
 // address universe: neighbours at interesting prefix boundaries, both families
@@ -149,8 +245,64 @@ var c05V6 = []string{"2001:db8::1", "2001:db8::2", "2001:db8::3", "2001:db8:0:1:
 var c05V4Len = []int{0, 1, 8, 16, 22, 23, 24, 25, 30, 31, 32}
 var c05V6Len = []int{0, 1, 3, 16, 31, 32, 33, 48, 63, 64, 65, 127, 128}
 
-func c05Private(ip string) bool {
-	return ip == "10.1.2.3" || ip == "192.168.1.7" || ip == "fc00::1"
+// c05Private: addresses that are only ever presented through RemoteAddr or a
+// lone X-Real-IP (the documented X-Forwarded-For rule skips local/private
+// hops; anything that is not plainly a public unicast address is kept out of
+// X-Forwarded-For altogether).
+func c05Private(s string) bool {
+	ip := net.ParseIP(s)
+	if ip == nil {
+		return true
+	}
+	for _, n := range c05NonPublic {
+		if n.Contains(ip) {
+			return true
+		}
+	}
+	return !ip.IsGlobalUnicast() || ip.IsPrivate()
+}
+
+// c05Neighbour derives a client address that sits right at the edge of a list
+// entry: the last prefix bit flipped (just outside), the first host bit
+// flipped (just inside) or the very last bit flipped (inside). With prefix
+// lengths drawn from the whole range this puts a client on either side of
+// every possible prefix boundary.
+func c05Neighbour(rng *sim.Rand, entry string) string {
+	base, l := entry, -1
+	if i := strings.Index(entry, "/"); i >= 0 {
+		base = entry[:i]
+		fmt.Sscanf(entry[i+1:], "%d", &l)
+	}
+	ip := net.ParseIP(base)
+	if ip == nil {
+		return ""
+	}
+	var b []byte
+	if v4 := ip.To4(); v4 != nil && !strings.Contains(base, ":") {
+		b = append([]byte{}, v4...)
+	} else {
+		b = append([]byte{}, ip.To16()...)
+	}
+	bits := len(b) * 8
+	if l < 0 || l > bits {
+		l = bits
+	}
+	flip := func(i int) { b[i/8] ^= 0x80 >> uint(i%8) }
+	switch k := rng.Intn(3); {
+	case k == 0 && l > 0:
+		flip(l - 1)
+	case k == 1 && l < bits:
+		flip(l)
+	case l < bits:
+		flip(bits - 1)
+	default:
+		flip(bits - 1) // neighbour of a single address
+	}
+	out := net.IP(b)
+	if len(b) == 16 && out.To4() != nil {
+		return ""
+	}
+	return out.String()
 }
 
 func c05Expand6(s string) string {
@@ -176,9 +328,16 @@ func c05GenEntry(rng *sim.Rand, pool []string) string {
 		return a
 	}
 	var l int
-	if v6 {
+	switch {
+	case rng.Bool(0.25): // any prefix length at all
+		if v6 {
+			l = rng.Intn(129)
+		} else {
+			l = rng.Intn(33)
+		}
+	case v6:
 		l = c05V6Len[rng.Intn(len(c05V6Len))]
-	} else {
+	default:
 		l = c05V4Len[rng.Intn(len(c05V4Len))]
 	}
 	e := fmt.Sprintf("%s/%d", a, l)
@@ -208,6 +367,9 @@ func c05GenFilter(rng *sim.Rand, pool []string, present float64) *c05Filter {
 	}
 	f := &c05Filter{BlockByDefault: rng.Bool(0.4), Allow: []string{}, Block: []string{}}
 	na, nb := rng.Pick(0, 0, 1, 1, 2, 3), rng.Pick(0, 1, 1, 2, 3)
+	if rng.Bool(0.06) { // a long list now and then
+		na, nb = na+rng.Range(3, 9), nb+rng.Range(3, 9)
+	}
 	for i := 0; i < na; i++ {
 		f.Allow = append(f.Allow, c05GenEntry(rng, pool))
 	}
@@ -229,6 +391,153 @@ func c05GenFilter(rng *sim.Rand, pool []string, present float64) *c05Filter {
 	}
 	f.Allow, f.Block = c05Uniq(f.Allow), c05Uniq(f.Block)
 	return f
+}
+
+// c05MutFilter: what an operator's edit of one ipFilter block looks like.
+func c05MutFilter(rng *sim.Rand, f *c05Filter, pool, entryPool []string) *c05Filter {
+	if f == nil {
+		return c05GenFilter(rng, entryPool, 1.1)
+	}
+	g := c05Clone(f)
+	switch rng.Intn(8) {
+	case 0:
+		return nil
+	case 1:
+		g.BlockByDefault = !g.BlockByDefault
+	case 2:
+		g.Allow, g.Block = g.Block, g.Allow
+	case 3:
+		return c05GenFilter(rng, entryPool, 1.1)
+	case 4: // block one more client
+		g.Block = append(g.Block, pool[rng.Intn(len(pool))])
+	case 5: // allow one more client
+		g.Allow = append(g.Allow, pool[rng.Intn(len(pool))])
+	case 6: // drop an entry
+		switch {
+		case len(g.Block) > 0 && (len(g.Allow) == 0 || rng.Bool(0.6)):
+			i := rng.Intn(len(g.Block))
+			g.Block = append(g.Block[:i:i], g.Block[i+1:]...)
+		case len(g.Allow) > 0:
+			i := rng.Intn(len(g.Allow))
+			g.Allow = append(g.Allow[:i:i], g.Allow[i+1:]...)
+		default:
+			g.BlockByDefault = !g.BlockByDefault
+		}
+	default: // move an entry to the other list
+		switch {
+		case len(g.Block) > 0 && (len(g.Allow) == 0 || rng.Bool(0.5)):
+			i := rng.Intn(len(g.Block))
+			g.Allow = append(g.Allow, g.Block[i])
+			g.Block = append(g.Block[:i:i], g.Block[i+1:]...)
+		case len(g.Allow) > 0:
+			i := rng.Intn(len(g.Allow))
+			g.Block = append(g.Block, g.Allow[i])
+			g.Allow = append(g.Allow[:i:i], g.Allow[i+1:]...)
+		default:
+			g.Block = append(g.Block, c05GenEntry(rng, entryPool))
+		}
+	}
+	g.Allow, g.Block = c05Uniq(g.Allow), c05Uniq(g.Block)
+	return g
+}
+
+// c05WithDeny / c05WithoutDeny: the smallest edit of f after which the lists
+// deny / do not deny client c (by the statement's decision table).
+func c05WithDeny(f *c05Filter, c string) *c05Filter {
+	ip := net.ParseIP(c)
+	g := c05Clone(f)
+	if g == nil {
+		g = &c05Filter{Allow: []string{}, Block: []string{}}
+	}
+	g.Block = c05Uniq(append(g.Block, c))
+	if d, _, _ := c05Denied(g, ip); d {
+		return g
+	}
+	keep := []string{}
+	for _, e := range g.Allow {
+		if !c05Contains(e, ip) {
+			keep = append(keep, e)
+		}
+	}
+	g.Allow = keep
+	return g
+}
+
+func c05WithoutDeny(f *c05Filter, c string) *c05Filter {
+	ip := net.ParseIP(c)
+	g := c05Clone(f)
+	if g == nil {
+		return nil
+	}
+	keep := []string{}
+	for _, e := range g.Block {
+		if !c05Contains(e, ip) {
+			keep = append(keep, e)
+		}
+	}
+	g.Block = keep
+	if d, _, _ := c05Denied(g, ip); !d {
+		return g
+	}
+	g.Allow = c05Uniq(append(g.Allow, c))
+	if d, _, _ := c05Denied(g, ip); !d {
+		return g
+	}
+	return nil
+}
+
+// c05GenMove builds generation g as "the denial of one client moves to
+// another level": hoisted from the rule/path filters that deny it to the
+// server filter, or pushed down from the server filter into every rule. The
+// client is denied before and after the reload, only by different lists; a
+// request that mixes levels of two generations lets it through.
+func c05GenMove(rng *sim.Rand, sc *c05Scenario, g int, pool []string) bool {
+	c := pool[rng.Intn(len(pool))]
+	ip := net.ParseIP(c)
+	srv := c05At(sc.Server, sc.ServerAlts, g-1)
+	dS, _, _ := c05Denied(srv, ip)
+	if !dS {
+		any := false
+		for _, ru := range sc.Rules {
+			if d, _, _ := c05Denied(c05At(ru.Filter, ru.Alts, g-1), ip); d {
+				any = true
+			}
+			for _, p := range ru.Paths {
+				if d, _, _ := c05Denied(c05At(p.Filter, p.Alts, g-1), ip); d {
+					any = true
+				}
+			}
+		}
+		if !any {
+			return false
+		}
+	}
+	var nsrv *c05Filter
+	if dS {
+		nsrv = c05WithoutDeny(srv, c)
+	} else {
+		nsrv = c05WithDeny(srv, c)
+	}
+	sc.ServerAlts = append(sc.ServerAlts, nsrv)
+	for i := range sc.Rules {
+		ru := &sc.Rules[i]
+		prev := c05At(ru.Filter, ru.Alts, g-1)
+		if dS {
+			ru.Alts = append(ru.Alts, c05WithDeny(prev, c))
+		} else {
+			ru.Alts = append(ru.Alts, c05WithoutDeny(prev, c))
+		}
+		for j := range ru.Paths {
+			p := &ru.Paths[j]
+			pp := c05At(p.Filter, p.Alts, g-1)
+			if dS {
+				p.Alts = append(p.Alts, c05Clone(pp))
+			} else {
+				p.Alts = append(p.Alts, c05WithoutDeny(pp, c))
+			}
+		}
+	}
+	return true
 }
 
 func c05Gen(rng *sim.Rand, tier string) interface{} {
@@ -295,6 +604,75 @@ func c05Gen(rng *sim.Rand, tier string) interface{} {
 		sc.Rules = append(sc.Rules, ru)
 	}
 
+	// boundary clients: addresses derived from list entries (one bit off the
+	// prefix edge) join the client population
+	if rng.Bool(0.5) {
+		var ents []string
+		col := func(f *c05Filter) {
+			if f != nil {
+				ents = append(ents, f.Allow...)
+				ents = append(ents, f.Block...)
+			}
+		}
+		col(sc.Server)
+		for _, ru := range sc.Rules {
+			col(ru.Filter)
+			for _, p := range ru.Paths {
+				col(p.Filter)
+			}
+		}
+		for k, n := 0, rng.Range(1, 3); k < n && len(ents) > 0; k++ {
+			if nb := c05Neighbour(rng, ents[rng.Intn(len(ents))]); nb != "" {
+				pool = append(pool, nb)
+			}
+		}
+	}
+
+	// hot reloads: about a third of the scenarios own 1-3 further generations of
+	// the spec. Rules, paths and cacheSize stay as they are, only ipFilter
+	// blocks are edited: at the server level only (the routing rules are then
+	// byte-identical across the reload), at the rule level only, at the path
+	// level only, or at several levels at once.
+	nG := 0
+	if rng.Bool(0.3) { // every generation costs one supervisor.NewSpec
+		nG = rng.Pick(1, 1, 1, 2, 3)
+	}
+	for g := 1; g <= nG; g++ {
+		if rng.Bool(0.2) && c05GenMove(rng, sc, g, pool) {
+			continue
+		}
+		mode := rng.Intn(20)
+		chg := func(level int) bool {
+			switch {
+			case mode < 7:
+				return level == 0
+			case mode < 11:
+				return level == 1 && rng.Bool(0.7)
+			case mode < 15:
+				return level == 2 && rng.Bool(0.7)
+			case mode < 16:
+				return false // reload with identical lists
+			}
+			return rng.Bool(0.5)
+		}
+		next := func(level int, base *c05Filter, alts []*c05Filter) *c05Filter {
+			prev := c05At(base, alts, g-1)
+			if chg(level) {
+				return c05MutFilter(rng, prev, pool, entryPool)
+			}
+			return c05Clone(prev)
+		}
+		sc.ServerAlts = append(sc.ServerAlts, next(0, sc.Server, sc.ServerAlts))
+		for i := range sc.Rules {
+			ru := &sc.Rules[i]
+			ru.Alts = append(ru.Alts, next(1, ru.Filter, ru.Alts))
+			for j := range ru.Paths {
+				p := &ru.Paths[j]
+				p.Alts = append(p.Alts, next(2, p.Filter, p.Alts))
+			}
+		}
+	}
+
 	// a few "hot" cache keys per scenario, so that different clients meet on
 	// the same cached route
 	randKey := func() (string, string, string) {
@@ -318,6 +696,26 @@ func c05Gen(rng *sim.Rand, tier string) interface{} {
 	pChainVia := float64(rng.Pick(0, 10, 30, 60)) / 100
 	nc := rng.Range(1, 4)
 	total := rng.Range(6, 40)
+	// reloads issued by the clients themselves: with a single client they
+	// happen at a quiescent point (no request is in flight), with several
+	// clients under traffic
+	pClientReload := 0.03
+	adminReloads := nG > 0
+	if nG > 0 && nc == 1 {
+		pClientReload = 0.12
+		adminReloads = rng.Bool(0.4)
+	}
+	if adminReloads {
+		// the admin task: walks through the generations, sometimes back
+		n := nG + rng.Pick(0, 0, 1, 2)
+		for i := 0; i < n; i++ {
+			g := i + 1
+			if g > nG {
+				g = rng.Intn(nG + 1)
+			}
+			sc.Reloader = append(sc.Reloader, c05Op{Kind: "reload", Gen: g, GapUs: int64(rng.Pick(0, 1, 300, 1000, 1000, 2500, 6000))})
+		}
+	}
 	for c := 0; c < nc; c++ {
 		cl := c05Client{}
 		n := total / nc
@@ -325,8 +723,8 @@ func c05Gen(rng *sim.Rand, tier string) interface{} {
 			n = 1
 		}
 		for i := 0; i < n; i++ {
-			if rng.Bool(0.03) {
-				cl.Ops = append(cl.Ops, c05Op{Kind: "reload", GapUs: int64(rng.Pick(0, 1, 1000))})
+			if rng.Bool(pClientReload) {
+				cl.Ops = append(cl.Ops, c05Op{Kind: "reload", Gen: rng.Intn(nG + 1), GapUs: int64(rng.Pick(0, 1, 1000))})
 				continue
 			}
 			op := c05Op{Kind: "req", GapUs: int64(rng.Pick(0, 0, 1, 1000))}
@@ -357,6 +755,9 @@ func c05Gen(rng *sim.Rand, tier string) interface{} {
 				if op.Via == "xffdecoy" {
 					op.Decoy = pool[rng.Intn(len(pool))]
 				}
+			}
+			if op.Via != "remote" && strings.Contains(op.IP, ":") && rng.Bool(0.15) {
+				op.Form = "exp"
 			}
 			cl.Ops = append(cl.Ops, op)
 		}
@@ -401,6 +802,40 @@ func c05Denied(f *c05Filter, ip net.IP) (denied, inAllow, inBlock bool) {
 		denied = f.BlockByDefault
 	}
 	return
+}
+
+// c05JustOutside: ip shares the first l-1 bits with entry a/l and differs in
+// bit l-1 (reach probe only).
+func c05JustOutside(entry string, ip net.IP) bool {
+	base, l := entry, -1
+	if i := strings.Index(entry, "/"); i >= 0 {
+		base = entry[:i]
+		fmt.Sscanf(entry[i+1:], "%d", &l)
+	}
+	a := net.ParseIP(base)
+	if a == nil || ip == nil {
+		return false
+	}
+	x, y := a.To4(), ip.To4()
+	if (x == nil) != (y == nil) {
+		return false
+	}
+	if x == nil {
+		x, y = a.To16(), ip.To16()
+	}
+	bits := len(x) * 8
+	if l < 0 || l > bits {
+		l = bits
+	}
+	if l == 0 {
+		return false
+	}
+	for i := 0; i < l-1; i++ {
+		if (x[i/8]^y[i/8])&(0x80>>uint(i%8)) != 0 {
+			return false
+		}
+	}
+	return (x[(l-1)/8]^y[(l-1)/8])&(0x80>>uint((l-1)%8)) != 0
 }
 
 func c05HostMatches(ruleHost, reqHost string) bool {
@@ -534,43 +969,68 @@ func c05NewMux(r *sim.Run, ss *supervisor.Spec, yield bool) *c05Mux {
 	return &c05Mux{m: m, ss: ss, mapper: mp}
 }
 
-// c05Build creates the mux under test and its two quiescent twins from ONE
-// validated spec (supervisor.NewSpec is by far the most expensive step of a
-// run): mux.reload reads filters and cacheSize only while it builds the
-// instance, so the twins are built from the same spec object with the cache
-// size / the filters temporarily taken out.
-func c05Build(r *sim.Run, sc *c05Scenario) (main, twinU, twinF *c05Mux, err error) {
-	ss, err := supervisor.NewSpec(c05YAML(sc, true, sc.CacheSize))
-	if err != nil {
-		return nil, nil, nil, err
-	}
-	spec := ss.ObjectSpec().(*Spec)
-	main = c05NewMux(r, ss, sc.HandlerYield)
-	cs := spec.CacheSize
-	spec.CacheSize = 0
-	twinF = c05NewMux(r, ss, false)
-	type saved struct {
-		at **ipfilter.Spec
-		v  *ipfilter.Spec
-	}
-	var sv []saved
-	strip := func(p **ipfilter.Spec) {
-		sv = append(sv, saved{p, *p})
-		*p = nil
-	}
-	strip(&spec.IPFilter)
-	for _, ru := range spec.Rules {
-		strip(&ru.IPFilter)
-		for _, p := range ru.Paths {
-			strip(&p.IPFilter)
+// c05GenSUT is one generation of the HTTPServer spec: its own validated
+// supervisor spec (as every configuration update delivers a fresh one) and a
+// quiescent cache-less twin built from it.
+type c05GenSUT struct {
+	g     int
+	view  *c05Scenario
+	yaml  string
+	ss    *supervisor.Spec
+	twinF *c05Mux
+}
+
+// c05Build creates the mux under test (generation 0), the filter-less twin
+// and one c05GenSUT per generation in gens. supervisor.NewSpec is by far the
+// most expensive step of a run, so the twins of a generation are built from
+// the generation's ONE spec object: mux.reload reads filters and cacheSize
+// only while it builds the instance, so the cache size / the filters are
+// temporarily taken out and put back before the run starts.
+func c05Build(r *sim.Run, sc *c05Scenario, gens []int) (main, twinU *c05Mux, sut map[int]*c05GenSUT, err error) {
+	sut = map[int]*c05GenSUT{}
+	for _, g := range gens {
+		gs := &c05GenSUT{g: g, view: c05View(sc, g)}
+		gs.yaml = c05YAML(gs.view, true, sc.CacheSize)
+		gs.ss, err = supervisor.NewSpec(gs.yaml)
+		if err != nil {
+			return nil, nil, nil, fmt.Errorf("generation %d: %v", g, err)
 		}
+		spec := gs.ss.ObjectSpec().(*Spec)
+		if g == 0 {
+			main = c05NewMux(r, gs.ss, sc.HandlerYield)
+		}
+		cs := spec.CacheSize
+		spec.CacheSize = 0
+		gs.twinF = c05NewMux(r, gs.ss, false)
+		if g == 0 {
+			type saved struct {
+				at **ipfilter.Spec
+				v  *ipfilter.Spec
+			}
+			var sv []saved
+			strip := func(p **ipfilter.Spec) {
+				sv = append(sv, saved{p, *p})
+				*p = nil
+			}
+			strip(&spec.IPFilter)
+			for _, ru := range spec.Rules {
+				strip(&ru.IPFilter)
+				for _, p := range ru.Paths {
+					strip(&p.IPFilter)
+				}
+			}
+			twinU = c05NewMux(r, gs.ss, false)
+			for _, x := range sv {
+				*x.at = x.v
+			}
+		}
+		spec.CacheSize = cs
+		sut[g] = gs
 	}
-	twinU = c05NewMux(r, ss, false)
-	for _, x := range sv {
-		*x.at = x.v
+	if main == nil {
+		return nil, nil, nil, fmt.Errorf("no generation 0")
 	}
-	spec.CacheSize = cs
-	return main, twinU, twinF, nil
+	return main, twinU, sut, nil
 }
 
 type c05Answer struct {
@@ -599,6 +1059,9 @@ func c05Request(op c05Op, id string) *http.Request {
 	req.RequestURI = op.Path
 	hostport := func(ip string) string { return net.JoinHostPort(ip, "40000") }
 	const proxy = "192.0.2.1"
+	if op.Form == "exp" && op.Via != "remote" {
+		op.IP = c05Expand6(op.IP)
+	}
 	switch op.Via {
 	case "xri":
 		req.RemoteAddr = hostport(proxy)
@@ -684,13 +1147,18 @@ func c05ClientOf(req *http.Request) (string, bool) {
 	return xri, xri != ""
 }
 
-func (cm *c05Mux) serve(op c05Op, id string) (ans c05Answer, ok bool) {
+// serve hands one request to the mux; post (may be nil) runs immediately
+// after ServeHTTP returned, before anything that could pass a gate.
+func (cm *c05Mux) serve(op c05Op, id string, post func()) (ans c05Answer, ok bool) {
 	req := c05Request(op, id)
 	if req == nil {
 		return ans, false
 	}
 	rec := httptest.NewRecorder()
 	cm.m.ServeHTTP(rec, req)
+	if post != nil {
+		post()
+	}
 	ans.status = rec.Code
 	ans.calls = cm.mapper.calls[id]
 	delete(cm.mapper.calls, id)
@@ -712,7 +1180,7 @@ var c05Mask = func() map[string]bool {
 
 func c05ValidOp(op c05Op) bool {
 	if op.Kind == "reload" {
-		return true
+		return op.Gen >= 0 && op.Gen <= c05MaxGen
 	}
 	if op.Kind != "req" || op.Host == "" || op.Method == "" || !strings.HasPrefix(op.Path, "/") || net.ParseIP(op.IP) == nil {
 		return false
@@ -738,7 +1206,14 @@ func c05ValidOp(op c05Op) bool {
 		return false
 	}
 	got, ok := c05ClientOf(req)
-	return ok && got == op.IP
+	if !ok || op.Form != "" && op.Form != "exp" {
+		return false
+	}
+	g, w := net.ParseIP(got), net.ParseIP(op.IP)
+	if op.Form == "" {
+		return got == op.IP
+	}
+	return g != nil && w != nil && g.Equal(w)
 }
 
 func c05Exec(r *sim.Run, sci interface{}) {
@@ -756,7 +1231,26 @@ func c05Exec(r *sim.Run, sci interface{}) {
 			}
 		}
 	}
-	main, twinU, twinF, err := c05Build(r, sc)
+	// generations some reload asks for (0 is the initial one)
+	used := map[int]bool{0: true}
+	for _, op := range sc.Reloader {
+		if c05ValidOp(op) && op.Kind == "reload" {
+			used[op.Gen] = true
+		}
+	}
+	for _, cl := range sc.Clients {
+		for _, op := range cl.Ops {
+			if op.Kind == "reload" && c05ValidOp(op) {
+				used[op.Gen] = true
+			}
+		}
+	}
+	var gens []int
+	for g := range used {
+		gens = append(gens, g)
+	}
+	sort.Ints(gens)
+	main, twinU, sut, err := c05Build(r, sc, gens)
 	if err != nil {
 		r.Probe("c05.spec_rejected")
 		r.Eventf("spec rejected: %v", err)
@@ -765,14 +1259,16 @@ func c05Exec(r *sim.Run, sci interface{}) {
 	defer func() {
 		main.m.close()
 		twinU.m.close()
-		twinF.m.close()
+		for _, g := range gens {
+			sut[g].twinF.m.close()
+		}
 	}()
 	// prologue: one fixed request (public X-Forwarded-For that no scenario
 	// uses) through the filter-less twin, so that any process-wide "last
 	// request" state of the address extraction is the same at the start of
 	// every run, whatever ran before in this worker process (replays start
 	// in a fresh process).
-	twinU.serve(c05Op{Kind: "req", Host: "warmup.test", Method: "GET", Path: "/", IP: "198.18.0.1", Via: "xff"}, "warmup")
+	twinU.serve(c05Op{Kind: "req", Host: "warmup.test", Method: "GET", Path: "/", IP: "198.18.0.1", Via: "xff"}, "warmup", nil)
 	hasTags := false
 	for _, ru := range sc.Rules {
 		for _, p := range ru.Paths {
@@ -794,225 +1290,453 @@ func c05Exec(r *sim.Run, sci interface{}) {
 	nDenied, nAllowedRouted, nCacheHit := 0, 0, 0
 	reqNo := 0
 
-	// judge applies the statement to one answer of one mux. which = "cached"
-	// (the mux under test, cache as configured) or "nocache" (same spec,
-	// cacheSize 0).
-	judge := func(which, tag string, op c05Op, got, tw, f0 c05Answer, cached bool) {
+	// ---- reload bookkeeping -------------------------------------------------
+	// hist[k] = generation installed by the k-th reload (hist[0] = initial).
+	// Reloads are serialised (as the supervisor does for one object), so
+	// started-done is 0 or 1. Tasks run atomically between gates, so these are
+	// plain variables; a request snapshots `done` immediately before it is
+	// handed to ServeHTTP and `started` immediately after ServeHTTP returned:
+	// the generations that may judge it are hist[done .. started].
+	hist := []int{0}
+	started, done := 0, 0
+	reloading := false
+	inflight, reqEvents := 0, 0
+	keySeen := map[string]bool{}
+
+	// status applies the statement's decision table of generation view gv to
+	// one request: level = "server"/"rule"/"path" when a filter applying to
+	// the request denies it, maybe = index of an earlier host-matching rule
+	// whose filter denies it (-1: none), ri/pj = the route the router selects.
+	type c05Status struct {
+		routed bool
+		ri, pj int
+		level  string
+		maybe  int
+		bad    string
+	}
+	status := func(gv *c05Scenario, op c05Op, tw c05Answer) (st c05Status) {
 		ip := net.ParseIP(op.IP)
-		routed := len(tw.calls) > 0
-		ri, pj := -1, -1
-		if routed {
-			if _, err := fmt.Sscanf(tw.backend, "r%dp%d", &ri, &pj); err != nil || ri < 0 || ri >= len(sc.Rules) || pj < 0 || pj >= len(sc.Rules[ri].Paths) {
-				violate("C05.other", "%s: twin reached unknown backend %q", tag, tw.backend)
+		st.routed = len(tw.calls) > 0
+		st.ri, st.pj, st.maybe = -1, -1, -1
+		if st.routed {
+			if _, err := fmt.Sscanf(tw.backend, "r%dp%d", &st.ri, &st.pj); err != nil || st.ri < 0 || st.ri >= len(gv.Rules) || st.pj < 0 || st.pj >= len(gv.Rules[st.ri].Paths) {
+				st.bad = fmt.Sprintf("twin reached unknown backend %q", tw.backend)
 				return
 			}
 		}
-		ctxmsg := func() string {
-			return fmt.Sprintf("%s [%s mux, cacheSize %d, key cached before the request: %v] %s %s%s tag=%q client %s via %s\n  got %v\n  unfiltered uncached twin %v\n  filtered uncached twin %v\n  config:\n%s",
-				tag, which, sc.CacheSize, cached, op.Method, op.Host, op.Path, op.Tag, op.IP, op.Via, got, tw, f0, c05YAML(sc, true, sc.CacheSize))
+		if d, _, _ := c05Denied(gv.Server, ip); d {
+			st.level = "server"
 		}
-		if len(got.calls) > 1 {
-			violate("C05.other", "handler invoked %d times for one request\n%s", len(got.calls), ctxmsg())
-			return
-		}
-		// definite filters
-		level := ""
-		if d, _, _ := c05Denied(sc.Server, ip); d {
-			level = "server"
-		}
-		if level == "" && routed {
-			if d, _, _ := c05Denied(sc.Rules[ri].Filter, ip); d {
-				level = "rule"
-			} else if d, _, _ := c05Denied(sc.Rules[ri].Paths[pj].Filter, ip); d {
-				level = "path"
+		if st.level == "" && st.routed {
+			if d, _, _ := c05Denied(gv.Rules[st.ri].Filter, ip); d {
+				st.level = "rule"
+			} else if d, _, _ := c05Denied(gv.Rules[st.ri].Paths[st.pj].Filter, ip); d {
+				st.level = "path"
 			}
 		}
 		// maybe filters: host-matching rules consulted before the selected one
-		maybe := -1
-		for k, ru := range sc.Rules {
-			if routed && k >= ri {
+		for k, ru := range gv.Rules {
+			if st.routed && k >= st.ri {
 				break
 			}
 			if !c05HostMatches(ru.Host, op.Host) {
 				continue
 			}
 			if d, _, _ := c05Denied(ru.Filter, ip); d {
-				maybe = k
+				st.maybe = k
 				break
 			}
 		}
-		if which == "cached" {
-			// reach probes
-			for _, f := range []*c05Filter{sc.Server} {
-				if _, a, b := c05Denied(f, ip); f != nil {
-					switch {
-					case a && b:
-						r.Probe("c05.addr_in_allow_and_block")
-					case !a && !b && f.BlockByDefault:
-						r.Probe("c05.addr_in_neither_blockByDefault")
-					}
+		return
+	}
+
+	// reach probes for a request judged by exactly one generation
+	reach := func(gv *c05Scenario, op c05Op, tw c05Answer, cached bool) {
+		ip := net.ParseIP(op.IP)
+		st := status(gv, op, tw)
+		if st.bad != "" {
+			return
+		}
+		fs := []*c05Filter{gv.Server}
+		if st.routed {
+			fs = append(fs, gv.Rules[st.ri].Filter, gv.Rules[st.ri].Paths[st.pj].Filter)
+		}
+		edge := false
+		for _, f := range fs {
+			if _, a, b := c05Denied(f, ip); f != nil {
+				switch {
+				case a && b:
+					r.Probe("c05.addr_in_allow_and_block")
+				case !a && !b && f.BlockByDefault:
+					r.Probe("c05.addr_in_neither_blockByDefault")
 				}
-			}
-			if routed {
-				for _, f := range []*c05Filter{sc.Rules[ri].Filter, sc.Rules[ri].Paths[pj].Filter} {
-					if _, a, b := c05Denied(f, ip); f != nil {
-						switch {
-						case a && b:
-							r.Probe("c05.addr_in_allow_and_block")
-						case !a && !b && f.BlockByDefault:
-							r.Probe("c05.addr_in_neither_blockByDefault")
-						}
-					}
+				for _, e := range f.Allow {
+					edge = edge || c05JustOutside(e, ip)
 				}
-			}
-			switch {
-			case level != "":
-				nDenied++
-				r.Probe("c05.denied_at_" + level)
-				if cached {
-					r.Probe("c05.denied_on_cached_key_" + level)
-				}
-				if !routed {
-					r.Probe("c05.denied_without_route")
-				}
-			case maybe >= 0:
-				r.Probe("c05.denied_only_by_earlier_rule")
-				if cached && routed {
-					r.Probe("c05.denied_only_by_earlier_rule_on_cached_route")
-				}
-			default:
-				if routed {
-					nAllowedRouted++
-					r.Probe("c05.allowed_routed")
-					if cached {
-						r.Probe("c05.allowed_on_cached_key")
-					}
+				for _, e := range f.Block {
+					edge = edge || c05JustOutside(e, ip)
 				}
 			}
 		}
+		if edge {
+			r.Probe("c05.client_one_bit_outside_an_applying_entry")
+		}
+		if op.Form == "exp" {
+			r.Probe("c05.client_ipv6_expanded_spelling")
+		}
+		switch {
+		case st.level != "":
+			nDenied++
+			r.Probe("c05.denied_at_" + st.level)
+			if cached {
+				r.Probe("c05.denied_on_cached_key_" + st.level)
+			}
+			if !st.routed {
+				r.Probe("c05.denied_without_route")
+			}
+		case st.maybe >= 0:
+			r.Probe("c05.denied_only_by_earlier_rule")
+			if cached && st.routed {
+				r.Probe("c05.denied_only_by_earlier_rule_on_cached_route")
+			}
+		default:
+			if st.routed {
+				nAllowedRouted++
+				r.Probe("c05.allowed_routed")
+				if cached {
+					r.Probe("c05.allowed_on_cached_key")
+				}
+			}
+		}
+	}
 
+	// verdict applies the statement to one answer of one mux under ONE
+	// generation of the lists. which = "cached" (the mux under test, cache as
+	// configured) or "nocache" (same spec, cacheSize 0). class "" = accepted.
+	verdict := func(which, tag string, gs *c05GenSUT, op c05Op, got, tw, f0 c05Answer, cached bool) (class, msg string) {
+		gv := gs.view
+		st := status(gv, op, tw)
+		if st.bad != "" {
+			return "C05.other", tag + ": " + st.bad
+		}
+		routed, level, maybe := st.routed, st.level, st.maybe
+		ctxmsg := func() string {
+			return fmt.Sprintf("%s [%s mux, cacheSize %d, key cached before the request: %v] %s %s%s tag=%q client %s via %s\n  got %v\n  unfiltered uncached twin %v\n  filtered uncached twin (generation %d) %v\n  config (generation %d):\n%s",
+				tag, which, sc.CacheSize, cached, op.Method, op.Host, op.Path, op.Tag, op.IP, op.Via, got, tw, gs.g, f0, gs.g, gs.yaml)
+		}
+		if len(got.calls) > 1 {
+			return "C05.other", fmt.Sprintf("handler invoked %d times for one request\n%s", len(got.calls), ctxmsg())
+		}
 		switch {
 		case level != "":
 			if len(got.calls) > 0 {
 				if routed && got.backend != tw.backend {
-					violate("C05.denied-reaches-sibling-path", "client denied by the %s-level filter of its route was served by backend %s (another path than the router selects)\n%s", level, got.backend, ctxmsg())
-				} else {
-					violate("C05."+level+"-filter-bypassed", "client denied by the %s-level filter reached backend %s\n%s", level, got.backend, ctxmsg())
+					return "C05.denied-reaches-sibling-path", fmt.Sprintf("client denied by the %s-level filter of its route was served by backend %s (another path than the router selects)\n%s", level, got.backend, ctxmsg())
 				}
-				return
+				return "C05." + level + "-filter-bypassed", fmt.Sprintf("client denied by the %s-level filter reached backend %s\n%s", level, got.backend, ctxmsg())
 			}
 			if got.status < 400 || got.status > 499 {
-				violate("C05.denied-status-not-4xx", "client denied by the %s-level filter got status %d\n%s", level, got.status, ctxmsg())
-				return
+				return "C05.denied-status-not-4xx", fmt.Sprintf("client denied by the %s-level filter got status %d\n%s", level, got.status, ctxmsg())
 			}
 			if routed && got.status != http.StatusForbidden {
-				violate("C05.denied-status-not-403", "client denied by the %s-level filter on an existing route got status %d, want 403\n%s", level, got.status, ctxmsg())
+				return "C05.denied-status-not-403", fmt.Sprintf("client denied by the %s-level filter on an existing route got status %d, want 403\n%s", level, got.status, ctxmsg())
 			}
 		case maybe >= 0:
 			refused := len(got.calls) == 0 && got.status == http.StatusForbidden
 			if !refused && !got.same(tw) {
 				if hasTags && len(got.calls) > 0 && routed {
-					r.Probe("c05.header_shadow_unjudged")
-					return
+					return "", "unjudged"
 				}
-				violate("C05.other", "client denied only by the filter of earlier host-matching rule %d got neither 403 nor the unfiltered answer\n%s", maybe, ctxmsg())
-				return
+				return "C05.other", fmt.Sprintf("client denied only by the filter of earlier host-matching rule %d got neither 403 nor the unfiltered answer\n%s", maybe, ctxmsg())
 			}
 			if which == "cached" && routed && !got.same(f0) {
 				// the answer depends on what was cached
 				if len(got.calls) > 0 && len(f0.calls) == 0 {
-					violate("C05.earlier-rule-filter-skipped-on-cache-hit", "rule %d matches the host and its filter denies the client; without route cache the request is refused (403), with the route cached it reaches backend %s\n%s", maybe, got.backend, ctxmsg())
-				} else {
-					violate("C05.other", "answer for a client denied only by earlier rule %d depends on the cache history\n%s", maybe, ctxmsg())
+					return "C05.earlier-rule-filter-skipped-on-cache-hit", fmt.Sprintf("rule %d matches the host and its filter denies the client; without route cache the request is refused (403), with the route cached it reaches backend %s\n%s", maybe, got.backend, ctxmsg())
 				}
+				return "C05.other", fmt.Sprintf("answer for a client denied only by earlier rule %d depends on the cache history\n%s", maybe, ctxmsg())
 			}
 		default:
 			if got.same(tw) {
-				return
+				return "", ""
 			}
 			if hasTags && len(got.calls) > 0 && routed {
 				// routed, but to another path than the twin: cache shadowing of a
 				// header-conditioned path, no filter involved (C12)
-				r.Probe("c05.header_shadow_unjudged")
-				return
+				return "", "unjudged"
 			}
 			if len(got.calls) == 0 && got.status == http.StatusForbidden {
 				if which == "cached" && hasTags && sc.CacheSize > 0 && f0.same(tw) {
-					violate("C05.allowed-refused-by-sibling-path-filter", "no applying filter denies the client and the uncached mux routes it, but with the route cache it gets 403\n%s", ctxmsg())
-				} else {
-					violate("C05.allowed-refused", "no filter applying to the request denies the client, yet it gets 403\n%s", ctxmsg())
+					return "C05.allowed-refused-by-sibling-path-filter", fmt.Sprintf("no applying filter denies the client and the uncached mux routes it, but with the route cache it gets 403\n%s", ctxmsg())
 				}
-				return
+				return "C05.allowed-refused", fmt.Sprintf("no filter applying to the request denies the client, yet it gets 403\n%s", ctxmsg())
 			}
-			violate("C05.allowed-misrouted", "no filter denies the client, but the answer differs from a server without filters\n%s", ctxmsg())
+			return "C05.allowed-misrouted", fmt.Sprintf("no filter denies the client, but the answer differs from a server without filters\n%s", ctxmsg())
+		}
+		return "", ""
+	}
+
+	histStr := func() string {
+		return fmt.Sprintf("generations installed so far %v (reloads started %d, returned %d)", hist, started, done)
+	}
+
+	doReload := func(tag string, op c05Op) {
+		gs := sut[op.Gen]
+		if gs == nil {
+			return
+		}
+		if reloading {
+			// one object is never reloaded by two callers at once
+			r.Probe("c05.reload_skipped_another_in_progress")
+			return
+		}
+		reloading = true
+		from := sut[hist[len(hist)-1]]
+		hist = append(hist, op.Gen)
+		started++
+		busy, ev0 := inflight > 0, reqEvents
+		r.Eventf("%s reload gen %d -> gen %d begins (requests in flight: %d)", tag, from.g, op.Gen, inflight)
+		main.m.reload(gs.ss, main.mapper)
+		done++
+		reloading = false
+		r.Eventf("%s reload gen %d -> gen %d returned", tag, from.g, op.Gen)
+		fmt.Fprintf(&sig, "R%d;", op.Gen)
+		r.Probe("c05.reload")
+		if busy || reqEvents != ev0 {
+			r.Fault("reload_under_traffic")
+			if busy {
+				r.Probe("c05.reload_with_request_parked_in_old_generation")
+			}
+		} else {
+			r.Probe("c05.reload_quiescent")
+		}
+		if sc.CacheSize > 0 {
+			r.Probe("c05.reload_with_route_cache")
+		} else {
+			r.Probe("c05.reload_without_route_cache")
+		}
+		// what the reload changes
+		a, b := from.view, gs.view
+		chS, chR, chP := !c05SameFilter(a.Server, b.Server), false, false
+		for i := range a.Rules {
+			if !c05SameFilter(a.Rules[i].Filter, b.Rules[i].Filter) {
+				chR = true
+			}
+			for j := range a.Rules[i].Paths {
+				if !c05SameFilter(a.Rules[i].Paths[j].Filter, b.Rules[i].Paths[j].Filter) {
+					chP = true
+				}
+			}
+		}
+		switch {
+		case !chS && !chR && !chP:
+			r.Probe("c05.reload_same_lists")
+		case chS && !chR && !chP:
+			r.Probe("c05.reload_changes_server_filter_only")
+		case !chS && chR && !chP:
+			r.Probe("c05.reload_changes_rule_filters_only")
+		case !chS && !chR && chP:
+			r.Probe("c05.reload_changes_path_filters_only")
+		default:
+			r.Probe("c05.reload_changes_several_levels")
+		}
+		for k := 0; k < len(hist)-2; k++ {
+			if hist[k] == op.Gen && from.g != op.Gen {
+				r.Probe("c05.reload_back_to_earlier_generation")
+				break
+			}
 		}
 	}
 
-	for ci := range sc.Clients {
-		ci := ci
-		ops := sc.Clients[ci].Ops
-		r.Go(fmt.Sprintf("client%d", ci), func() {
+	doRequest := func(tag string, op c05Op) {
+		reqNo++
+		id := fmt.Sprintf("q%d", reqNo)
+		switch {
+		case strings.Contains(op.IP, ":"):
+			r.Probe("c05.ipv6_client")
+		default:
+			r.Probe("c05.ipv4_client")
+		}
+		r.Probe("c05.via_" + op.Via)
+		// was the key in the route cache when the request was issued?
+		cached, full := false, false
+		if inst, _ := main.m.inst.Load().(*muxInstance); inst != nil && inst.cache != nil {
+			// (probe only) the key layout is the implementation's business:
+			// a key counts if it is host, method, path in that order with
+			// any blank separators
+			want := op.Host + op.Method + op.Path
+			for _, k := range inst.cache.Keys() {
+				if ks, ok := k.(string); ok && strings.Join(strings.Fields(ks), "") == want {
+					cached = true
+				}
+			}
+			full = inst.cache.Len() >= sc.CacheSize
+		}
+		if cached {
+			nCacheHit++
+		} else if full {
+			r.Probe("c05.miss_with_full_cache")
+		}
+		key := op.Host + " " + op.Method + " " + op.Path
+		seenBefore := keySeen[key]
+		keySeen[key] = true
+		// --- the request; no gate between the snapshots and ServeHTTP
+		lo := done
+		inflight++
+		reqEvents++
+		hi := lo
+		got, ok := main.serve(op, id, func() {
+			hi = started
+			inflight--
+			reqEvents++
+		})
+		if !ok {
+			inflight--
+			return
+		}
+		hcopy := append([]int(nil), hist...)
+		tw, _ := twinU.serve(op, id, nil)
+		// generations that may judge the request
+		var acc []*c05GenSUT
+		for k := lo; k <= hi && k < len(hcopy); k++ {
+			dup := false
+			for _, x := range acc {
+				dup = dup || x.g == hcopy[k]
+			}
+			if !dup {
+				acc = append(acc, sut[hcopy[k]])
+			}
+		}
+		if len(acc) == 0 {
+			return
+		}
+		f0s := make([]c05Answer, len(acc))
+		for i, gs := range acc {
+			f0s[i], _ = gs.twinF.serve(op, id, nil)
+		}
+		r.Eventf("%s %s %s%s tag=%s ip=%s via=%s cached=%v gens=%v..%v -> %v | twin %v | nocache(gen %d) %v", tag, op.Method, op.Host, op.Path, op.Tag, op.IP, op.Via, cached, hcopy[lo], hcopy[hi], got, tw, acc[len(acc)-1].g, f0s[len(acc)-1])
+		fmt.Fprintf(&sig, "%s%s%s%s%s>%d%s;", op.Method, op.Host, op.Path, op.Tag, op.IP, got.status, got.backend)
+
+		okBy := 0
+		var firstClass, firstMsg string
+		unjudged := false
+		for i := len(acc) - 1; i >= 0; i-- {
+			cl, msg := verdict("cached", tag, acc[i], op, got, tw, f0s[i], cached)
+			if cl == "" {
+				okBy++
+				if msg == "unjudged" {
+					unjudged = true
+				}
+			} else if firstClass == "" {
+				firstClass, firstMsg = cl, msg
+			}
+		}
+		if unjudged {
+			r.Probe("c05.header_shadow_unjudged")
+		}
+		if len(acc) == 1 {
+			reach(acc[0].view, op, tw, cached)
+			if lo > 0 {
+				r.Probe("c05.req_after_reload")
+				// does the reload matter for this request?
+				prev := sut[hcopy[lo-1]]
+				sn, so := status(acc[0].view, op, tw), status(prev.view, op, tw)
+				if (sn.level != "") != (so.level != "") {
+					r.Probe("c05.req_after_reload_verdict_changed")
+					if sn.level != "" {
+						r.Probe("c05.req_after_reload_newly_denied")
+					} else {
+						r.Probe("c05.req_after_reload_newly_allowed")
+					}
+					if seenBefore && sc.CacheSize > 0 {
+						r.Probe("c05.req_after_reload_verdict_changed_key_requested_before")
+					}
+				}
+			}
+		} else {
+			r.Probe("c05.req_overlapping_reload")
+			if hi-lo >= 2 {
+				r.Probe("c05.req_overlapping_several_reloads")
+			}
+			so, sn := status(acc[0].view, op, tw), status(acc[len(acc)-1].view, op, tw)
+			if so.level != "" && sn.level != "" && so.level != sn.level {
+				r.Probe("c05.req_overlapping_reload_denied_by_both_generations_at_different_levels")
+			}
+			if (sn.level != "") != (so.level != "") {
+				r.Probe("c05.req_overlapping_reload_generations_disagree")
+				if okBy == 1 {
+					if c, _ := verdict("cached", tag, acc[0], op, got, tw, f0s[0], cached); c == "" {
+						r.Probe("c05.req_overlapping_reload_answered_by_old_lists")
+					} else {
+						r.Probe("c05.req_overlapping_reload_answered_by_new_lists")
+					}
+				}
+			}
+		}
+		if okBy == 0 {
+			// accepted by no generation that may judge it. Would lists that a
+			// reload had already replaced when the request started explain it?
+			for k := lo - 1; k >= 0; k-- {
+				old := sut[hcopy[k]]
+				f0, _ := old.twinF.serve(op, id, nil)
+				if c, _ := verdict("cached", tag, old, op, got, tw, f0, cached); c != "" {
+					continue
+				}
+				what, class := "other", "C05.reload.old-lists-still-applied"
+				switch {
+				case len(got.calls) > 0 && status(acc[len(acc)-1].view, op, tw).level != "":
+					what, class = "a client the current lists deny reached backend "+got.backend, "C05.reload.denied-served-by-old-lists"
+				case len(got.calls) == 0 && got.status == http.StatusForbidden:
+					what, class = "a client the current lists do not deny was refused", "C05.reload.allowed-refused-by-old-lists"
+				}
+				violate(class, "%s: the request started after the reload to generation %d had returned, but the answer is the one of generation %d, replaced %d reload(s) earlier; %s\n  judged by the lists in force: %s: %s\n  config of the stale generation %d:\n%s",
+					what, hcopy[lo], old.g, lo-k, histStr(), firstClass, firstMsg, old.g, old.yaml)
+				return
+			}
+			if len(acc) > 1 {
+				firstMsg = fmt.Sprintf("(request overlapped a reload: judged by generations %d..%d, accepted by none; %s)\n%s", acc[0].g, acc[len(acc)-1].g, histStr(), firstMsg)
+			} else if lo > 0 {
+				firstMsg = fmt.Sprintf("(%s)\n%s", histStr(), firstMsg)
+			}
+			violate(firstClass, "%s", firstMsg)
+			return
+		}
+		// the cache-less mux of every generation involved, as a pure function
+		for i, gs := range acc {
+			if cl, msg := verdict("nocache", tag, gs, op, f0s[i], tw, f0s[i], false); cl != "" {
+				violate(cl, "%s", msg)
+				return
+			}
+		}
+	}
+
+	runOps := func(name string, ops []c05Op, reloadsOnly bool) {
+		r.Go(name, func() {
 			for oi, op := range ops {
 				if r.Violated() || r.Aborted() {
 					return
 				}
-				if !c05ValidOp(op) {
+				if !c05ValidOp(op) || (reloadsOnly && op.Kind != "reload") {
 					continue
 				}
 				if op.GapUs < 0 || op.GapUs > 10000000 {
 					op.GapUs = 0
 				}
 				r.Sleep(time.Duration(op.GapUs) * time.Microsecond)
-				tag := fmt.Sprintf("c%d.%d", ci, oi)
+				tag := fmt.Sprintf("%s.%d", name, oi)
 				if op.Kind == "reload" {
-					main.m.reload(main.ss, main.mapper)
-					r.Probe("c05.reload")
-					r.Eventf("%s reload", tag)
+					doReload(tag, op)
 					continue
 				}
-				reqNo++
-				id := fmt.Sprintf("q%d", reqNo)
-				switch {
-				case strings.Contains(op.IP, ":"):
-					r.Probe("c05.ipv6_client")
-				default:
-					r.Probe("c05.ipv4_client")
-				}
-				r.Probe("c05.via_" + op.Via)
-				// was the key in the route cache when the request was issued?
-				cached, full := false, false
-				if inst, _ := main.m.inst.Load().(*muxInstance); inst != nil && inst.cache != nil {
-					// (probe only) the key layout is the implementation's business:
-					// a key counts if it is host, method, path in that order with
-					// any blank separators
-					want := op.Host + op.Method + op.Path
-					for _, k := range inst.cache.Keys() {
-						if ks, ok := k.(string); ok && strings.Join(strings.Fields(ks), "") == want {
-							cached = true
-						}
-					}
-					full = inst.cache.Len() >= sc.CacheSize
-				}
-				if cached {
-					nCacheHit++
-				} else if full {
-					r.Probe("c05.miss_with_full_cache")
-				}
-				got, ok := main.serve(op, id)
-				if !ok {
-					continue
-				}
-				tw, _ := twinU.serve(op, id)
-				f0, _ := twinF.serve(op, id)
-				r.Eventf("%s %s %s%s tag=%s ip=%s via=%s cached=%v -> %v | twin %v | nocache %v", tag, op.Method, op.Host, op.Path, op.Tag, op.IP, op.Via, cached, got, tw, f0)
-				fmt.Fprintf(&sig, "%s%s%s%s%s>%d%s;", op.Method, op.Host, op.Path, op.Tag, op.IP, got.status, got.backend)
-				judge("cached", tag, op, got, tw, f0, cached)
-				if r.Violated() {
-					return
-				}
-				judge("nocache", tag, op, f0, tw, f0, false)
+				doRequest(tag, op)
 			}
 		})
+	}
+	for ci := range sc.Clients {
+		runOps(fmt.Sprintf("c%d", ci), sc.Clients[ci].Ops, false)
+	}
+	if len(sc.Reloader) > 0 {
+		runOps("admin", sc.Reloader, true)
 	}
 	r.WaitTasks()
 	if main.mapper.maxInflight >= 2 {
@@ -1021,14 +1745,20 @@ func c05Exec(r *sim.Run, sci interface{}) {
 	if nDenied > 0 && nAllowedRouted > 0 && (sc.CacheSize == 0 || nCacheHit > 0) {
 		r.Nontrivial()
 	}
-	// distinct = configuration + the sequence of (request, answer) as it was linearised
-	r.SetSig(c05YAML(sc, true, sc.CacheSize) + "|" + sig.String())
+	// distinct = configuration + the sequence of (request, answer) and reloads as it was linearised
+	cfg := ""
+	for _, g := range gens {
+		cfg += sut[g].yaml + "|"
+	}
+	r.SetSig(cfg + sig.String())
 	// reach probes on the configuration
 	ent := []string{}
+	long := false
 	add := func(f *c05Filter) {
 		if f != nil {
 			ent = append(ent, f.Allow...)
 			ent = append(ent, f.Block...)
+			long = long || len(f.Allow) >= 5 || len(f.Block) >= 5
 		}
 	}
 	add(sc.Server)
@@ -1038,10 +1768,24 @@ func c05Exec(r *sim.Run, sci interface{}) {
 			add(p.Filter)
 		}
 	}
+	if long {
+		r.Probe("c05.list_with_5_or_more_entries")
+	}
+	ongrid := func(l int, grid []int) bool {
+		for _, x := range grid {
+			if x == l {
+				return true
+			}
+		}
+		return false
+	}
 	sort.Strings(ent)
 	for _, e := range ent {
 		if i := strings.Index(e, "/"); i >= 0 {
 			if _, n, err := net.ParseCIDR(e); err == nil {
+				if ones, bits := n.Mask.Size(); (bits == 32 && !ongrid(ones, c05V4Len)) || (bits == 128 && !ongrid(ones, c05V6Len)) {
+					r.Probe("c05.cidr_prefix_length_off_the_boundary_grid")
+				}
 				if n.String() != e {
 					r.Probe("c05.cidr_with_host_bits")
 				}
@@ -1060,8 +1804,8 @@ func TestVerifC05(t *testing.T) {
 		New:      func() interface{} { return &c05Scenario{} },
 		Exec:     c05Exec,
 		MaxSteps: 20000,
-		Rule: "scenario = ipfilter specs at server/rule/path level drawn from an 18-address IPv4+IPv6 universe (single addresses, CIDRs at boundary prefix lengths incl. /0 and host bits, overlapping allow/block, blockByDefault) over 1-3 rules x 0-3 paths, cacheSize in {0,1,2,8}, 1-4 client tasks sending 6-40 requests (client address via RemoteAddr / X-Real-IP / X-Forwarded-For incl. private-only proxy chains shared by different clients) plus rare reloads; " +
-			"non-trivial = at least one request denied by an applying filter and one allowed request routed, and (if the cache is on) at least one request whose key was already cached; distinct = distinct (configuration, linearised request/answer sequence)",
+		Rule: "scenario = ipfilter specs at server/rule/path level drawn from an 18-address IPv4+IPv6 universe (single addresses, CIDRs at boundary prefix lengths incl. /0 and host bits, overlapping allow/block, blockByDefault) over 1-3 rules x 0-3 paths, cacheSize in {0,1,2,8}, 1-4 client tasks sending 6-40 requests (client address via RemoteAddr / X-Real-IP / X-Forwarded-For incl. private-only proxy chains shared by different clients, clients one bit off a list entry's prefix edge, any prefix length); a third of the scenarios hot-reload the server 1-5 times with 1-3 further spec generations whose ipFilter blocks differ at the server, rule and/or path level (same rules, same cacheSize), at quiescent points and under traffic; " +
+			"non-trivial = at least one request denied by an applying filter and one allowed request routed, and (if the cache is on) at least one request whose key was already cached; distinct = distinct (configurations of all generations, linearised request/answer/reload sequence)",
 		Real: []string{"pkg/object/httpserver mux (reload, ServeHTTP, serveHTTP, search, route cache)", "pkg/util/ipfilter (New, Allow, IPFilters)", "pkg/protocols/httpprot.NewRequest (realip extraction)", "supervisor.NewSpec (YAML + schema validation of the ipFilter entries)", "hashicorp ARC cache, cidranger"},
 		Stub: []string{"pipelines: recording MuxMapper/Handler (harness)", "HTTP transport: httptest.ResponseRecorder, requests built in memory", "sync/atomic -> simsync/simatomic (same semantics + gates)"},
 		Assumptions: []string{
@@ -1069,7 +1813,9 @@ func TestVerifC05(t *testing.T) {
 			"filters applying = server, rule holding the selected path, selected path; a filter of an earlier host-matching rule may be applied or not, but consistently with the cache-less answer",
 			"client address = documented realip rule: neither X-Forwarded-For nor X-Real-IP -> RemoteAddr host; else first valid public (not loopback/RFC1918/link-local/ULA) hop of X-Forwarded-For; else X-Real-IP. Generated sources: RemoteAddr, X-Real-IP, XFF client[,proxy], XFF+X-Real-IP agreeing, private-only XFF chain (reused across clients) + X-Real-IP, private hops then client in XFF with decoy X-Real-IP, XFF client + decoy X-Real-IP. Not generated: private-only XFF without X-Real-IP, unparseable hops, IPv4-mapped IPv6",
 			"cached 404/405 answered to a server-denied client is accepted (4xx)",
-			"searches are atomic steps (no gate inside muxInstance.search; the ARC cache has its own real lock): interleaving = order of whole requests + requests parked inside handlers",
+			"gates inside a request: the mux's atomic instance load, every statement of ipfilter.go (stmt_gates), the handler (optional yield); the ARC cache has its own real lock. A reload passes gates at the instance load/store and inside every ipfilter.New",
+			"hot reload: a request may be judged by any spec generation installed by a reload that had not returned when the request was handed to ServeHTTP ... had started when ServeHTTP returned; with no overlapping reload that is exactly the newest generation. Reloads of one server are serialised (as the supervisor does). Reloads keep rules/paths/cacheSize and change only ipFilter blocks",
+			"an answer explained only by lists that a returned reload had already replaced is classed C05.reload.*",
 		},
 	})
 }
